@@ -62,7 +62,7 @@ BENIGN = {
     "os.path.isabs", "os.path.normcase", "os.path.sep", "os.sep", "os.fspath", "os.fsencode", "os.fsdecode",
     "os.environ.get", "os.getenv", "os.getpid", "os.cpu_count", "os.PathLike", "os.linesep", "os.pathsep",
     "os.altsep", "os.name", "os.path.altsep", "os.path.expandvars", "os.get_terminal_size", "os.strerror",
-    "os.urandom", "os.environ", "os.path.splitdrive", "os.curdir", "os.pardir",
+    "os.urandom", "os.environ", "os.path.splitdrive", "os.curdir", "os.pardir", "os.fdopen", "os.close", "os.fsync",
     "pathlib.Path", "pathlib.PurePath", "pathlib.Path.home", "pathlib.Path.cwd", "pathlib.PurePosixPath",
     "pathlib.PureWindowsPath",
     "io.StringIO", "io.BytesIO", "io.TextIOWrapper", "io.BufferedReader", "io.DEFAULT_BUFFER_SIZE",
